@@ -80,13 +80,15 @@ class HH2Case:
         IM = repo.mod('src.initial_mesh')
         self.snapshots = []
         self.case = build_mesh(self.curve, self.history,
+                               time=self.run.get('time'),
                                snapshots=self.snapshots)
         mesh = self.case.mesh
         kw = dict(quad_order=self.cfg['quad_order'],
                   pw_exact=self.cfg['pw_exact'])
         self.SL = SLm.SingleLayerOperator(mesh, cache_dir=None, **kw)
         # replayed copy, really bisected
-        self.case2 = build_mesh(self.curve, self.history)
+        self.case2 = build_mesh(self.curve, self.history,
+                                time=self.run.get('time'))
         self.case2.mesh.uniform_refine()
         self.refSL = SLm.SingleLayerOperator(self.case2.mesh, cache_dir=None,
                                              **kw)
@@ -386,7 +388,14 @@ def gen_run(seed, params):
     sizes = params.get('sizes_u0', [4, 5, 6]) if with_u0 else params.get(
         'sizes', [4, 6, 8, 10, 12])
     target = rng.choice(sizes)
-    hist, n = gen_history(rng, curve, target)
+    # custom initial time grids: several slabs of unequal height, so that
+    # equal refinement levels no longer mean equal sizes
+    time = None
+    if rng.random() < params.get('p_time_grid', 0.2):
+        time = rng.choice([[0.0, 0.25, 1.0], [0.0, 0.5, 0.75, 1.5],
+                           [0.0, 0.3, 1.0], [0.0, 1.0, 1.5]])
+        target = max(target, 4 * (len(time) - 1) + 2)
+    hist, n = gen_history(rng, curve, target, time=time)
     cfg = {
         'pw_exact': rng.random() < 0.4,
         'quad_order': rng.choice([4, 6, 8, 12]),
@@ -423,7 +432,10 @@ def gen_run(seed, params):
                 'axis': rng.choice([0, 1])}]})
     if not ops:
         ops.append({'op': 'prolongate', 'a': 0, 'b': 63, 'seed': 1})
-    return {'curve': curve, 'history': hist, 'cfg': cfg, 'ops': ops}
+    run = {'curve': curve, 'history': hist, 'cfg': cfg, 'ops': ops}
+    if time is not None:
+        run['time'] = time
+    return run
 
 
 def shrink_run(run):
